@@ -192,7 +192,7 @@ fn outcome_projection(h: &Hist) -> Vec<String> {
 }
 
 pub fn case(t: &mut Tape, ctx: &CaseCtx) -> CaseResult {
-    let lives = vec![LifePlan { oneshot: t.chance(1, 6), checks: 1 + t.choose(3), crash_at: None }];
+    let lives = vec![LifePlan { oneshot: t.chance(1, 6), checks: 1 + t.choose(3), crash_at: None, wall_at_start: None }];
     let mut script = gen_script(t, &profile());
     // reboot waits introduce pings and select! ties that are irrelevant here: keep reboots immediate
     script.reboot_allowed = vec![];
